@@ -1424,15 +1424,16 @@ export class AllOfRuntype extends BaseRuntype {
     return true;
   }
   parseAfterValidation(ctx: ParseContext, input: any): unknown {
-    let acc = {};
+    const items = [];
     for (const it of this.schemas) {
       const parsed = it.parseAfterValidation(ctx, input);
       if (typeof parsed !== "object") {
         throw new Error("INTERNAL ERROR: AllOfParser: Expected object");
       }
-      acc = { ...acc, ...parsed };
+      items.push(parsed);
     }
-    return acc;
+    // every member returns its own projection of the same input: the result is their union at every depth
+    return deepmerge(...items);
   }
   reportDecodeError(ctx: ReportContext, input: unknown): DecodeError[] {
     const acc = [];
